@@ -230,6 +230,29 @@ func (h *heapCtx) stmt() []node {
 		h.vars = append(h.vars, heapVar{name: name, kind: "arr", n: b.n})
 		return []node{nDef(name, nApp("map", nFn(strict("x"), "", nApp("aset", nSym(a.name), nInt(0), nSym("x")), nApp("+", nSym("x"), nInt(1))), nSym(b.name)))}
 	}
+	if choice == 24 && len(hashes) > 0 {
+		// the key list of a hash is a value of its own: later changes of the hash do not reach it,
+		// and writing into it does not reach the hash
+		hv := h.vars[pick(r, hashes)]
+		ks := h.fresh("ks")
+		h.vars = append(h.vars, heapVar{name: ks, kind: "karr", n: -1})
+		out := []node{nDef(ks, nApp("keys", nSym(hv.name)))}
+		switch r.intn(4) {
+		case 0:
+			out = append(out, nApp("hdel", nSym(hv.name), h.hkey(false)), nApp("hdel", nSym(hv.name), h.hkey(false)))
+		case 1:
+			out = append(out, nApp("hset", nSym(hv.name), h.hkey(false), h.small()), nApp("hset", nSym(hv.name), h.hkey(false), h.small()))
+		case 2:
+			// delete every listed key, walking the list
+			out = append(out, nFor("", nDef("i", nInt(0)), nApp("<", nSym("i"), nApp("len", nSym(ks))), nSet("i", nApp("+", nSym("i"), nInt(1))),
+				nApp("hdel", nSym(hv.name), nApp("aget", nSym(ks), nSym("i")))))
+		default:
+			out = append(out, nCond([]clause{{nApp(">", nApp("len", nSym(ks)), nInt(0)), nApp("aset", nSym(ks), nInt(0), nQuote(nSym("zz")))}}, nNil()),
+				nApp("hset", nSym(hv.name), h.hkey(false), h.small()))
+		}
+		out = append(out, nApp("tr", nInt(h.key()), nSym(ks)), nApp("tr", nInt(h.key()), nApp("keys", nSym(hv.name))), nApp("tr", nInt(h.key()), nSym(hv.name)))
+		return out
+	}
 	if choice == 23 {
 		// an array (or hash) literal evaluated more than once must give a new object each time, whatever
 		// its syntactic position: function result, call argument, let binding, cond arm, nested literal
@@ -275,6 +298,7 @@ func (h *heapCtx) stmt() []node {
 	// observe something
 	all := append(append(append([]int{}, arrs...), hashes...), outers...)
 	all = append(all, strs...)
+	all = append(all, h.ofKind("karr")...)
 	if r.intn(4) == 0 && len(arrs) >= 2 {
 		a, b := h.vars[pick(r, arrs)], h.vars[pick(r, arrs)]
 		return []node{nApp("tr", nInt(h.key()), nApp("==", nSym(a.name), nSym(b.name)))}
